@@ -1,6 +1,7 @@
 package iocloser
 
 import (
+	"github.com/aperturerobotics/util/verifhook"
 	"io"
 	"sync"
 )
@@ -22,6 +23,8 @@ func NewReadCloser(rd io.Reader, close func() error) *ReadCloser {
 
 // Read writes data to the io.Readr.
 func (w *ReadCloser) Read(p []byte) (n int, err error) {
+	defer verifhook.Unlocked(w)
+	verifhook.Lock(w)
 	w.closeMtx.Lock()
 	defer w.closeMtx.Unlock()
 	if w.rd == nil {
@@ -33,11 +36,13 @@ func (w *ReadCloser) Read(p []byte) (n int, err error) {
 
 // Close closes the ReadCloser.
 func (w *ReadCloser) Close() error {
+	verifhook.Lock(w)
 	w.closeMtx.Lock()
 	closeFn := w.close
 	w.rd = nil
 	w.close = nil
 	w.closeMtx.Unlock()
+	verifhook.Unlocked(w)
 	if closeFn != nil {
 		return closeFn()
 	}
